@@ -149,15 +149,17 @@ var props = map[string]Prop{
 	},
 	"C10": {
 		ID: "C10", Level: "exploration",
-		Rule: "runtime/internal/runtime/z_chan.go is copied verbatim from the working tree into a scratch module whose clite and pthread/sync imports are stand-ins that hand every Lock/Unlock/Wait/Signal/Broadcast to a deterministic scheduler; rapid draws a script (1-3 channels of capacity 0-2, 2-4 threads x 1-4 operations: send, receive, close (one closer per channel), len, blocking select and non-blocking select with 1-4 cases incl. nil channels and repeated channels) and every scheduling decision (next thread, which waiter a Signal wakes, up to 3 spurious wake-ups; uniform or PCT-style priorities). A monitor checks over the history: tokens received were sent, once, on that channel, in per-(sender,receiver) FIFO order; completed sends <= cap + started receives; ok=true receives <= started sends; ok=false only under close, with zero value, never overtaking tokens sent before the close; sends after a completed close never succeed; no pthread misuse; and at quiescence no blocked operation is enabled in the Go channel model (lost wake-up). Non-trivial: >= 2 context switches. Distinct by (script, steps, switches).",
+		Rule: "runtime/internal/runtime/z_chan.go is copied verbatim from the working tree into a scratch module whose clite and pthread/sync imports are stand-ins that hand every Lock/Unlock/Wait/Signal/Broadcast to a deterministic scheduler; rapid draws a script (1-3 channels of capacity 0-2, 2-4 threads x 1-4 operations: send, receive, close (one closer per channel), len, blocking select and non-blocking select with 1-4 cases incl. nil channels and repeated channels) and every scheduling decision (next thread, which waiter a Signal wakes, up to 3 spurious wake-ups; uniform or PCT-style priorities). A monitor checks over the history: tokens received were sent, once, on that channel, in per-(sender,receiver) FIFO order; completed sends <= cap + started receives; ok=true receives <= started sends; ok=false only under close, with zero value, never overtaking tokens sent before the close; sends after a completed close never succeed; no pthread misuse; and at quiescence no blocked operation is enabled in the Go channel model (lost wake-up). Non-trivial: >= 2 context switches. Distinct by (script, steps, switches). Second job (compiled): rapid generates import-free programs of 8-20 units from 16 templates (multi-producer FIFO, multi-producer/multi-consumer exactly-once, close waking blocked plain/range/select receivers, select multiplexing with nil-ed channels, select with default on empty/full/nil/closed channels, select-driven worker pool, select-send producers, select-receive consumers, single-goroutine ring rotation mixing select and plain operations, unbuffered ping-pong, capacity bound observed between receives, publication of plain memory through a channel) with drawn counts, capacities 0-64 and busy-wait delays; built by gc and by the llgo under test (O0, O2; thorough adds Oz, O2+nogc, O1, O3), every llgo binary run 6 (25) times; outputs must equal the gc output. Non-trivial there = every unit with at least two goroutines.",
 		Assumptions: []string{
 			"schedules are sampled (uniform and priority-based) at lock/wait/signal granularity, not enumerated",
 			"the stand-in mutex/condvar implement POSIX semantics including what POSIX leaves open (which waiter wins, spurious wake-ups)",
-			"the compiled artefact is not involved here: this decides the algorithm in z_chan.go as written",
+			"the schedule job decides the algorithm in z_chan.go as written; the compiled job (programs) runs generated channel programs built by the llgo under test on hardware threads, several runs per binary, interleavings perturbed only by drawn busy-wait delays (sampled, not controlled)",
+			"compiled job: every unit's summary is schedule-independent by construction (checked on the gc build by running it three times); a run that is alive after 20 s and consumes no CPU in two 3 s windows is a deadlock (the programs have no timers), a run that is busy is inconclusive; selects with a send case use buffered channels only (listed finding)",
 		},
 		Jobs: []Job{
 			{Name: "schedules", Kind: "lift", Pkg: "./internal/runtime", Run: "TestVerifC10", Lift: []LiftFile{{Src: "runtime/internal/runtime/z_chan.go", Dst: "internal/runtime/z_chan.go"}},
 				Checks: [2]int{100000, 3000000}, Shards: [2]int{8, 16}, Timeout: [2]time.Duration{10 * min, 60 * min}},
+			prog("programs", "./harness/c10", "TestC10Programs", 2, 10, 8, 16),
 		},
 	},
 	"C11": {
